@@ -1569,6 +1569,9 @@ package gkvlite
 //@   modifies rootNodeLoc.refs, rootNodeLoc.root, rootNodeLoc.next, rootNodeLoc.chainedCollection, rootNodeLoc.chainedRootNodeLoc, node.numNodes, node.numBytes, node.next, itemLoc.loc, itemLoc.item, nodeLoc.loc, nodeLoc.node, nodeLoc.next, mem.ptr, G.freeNodes, G.freeNodeLocs, G.freeRootNodeLocs, AllocStats.CurFreeNodes, AllocStats.FreeNodes, AllocStats.CurFreeNodeLocs, AllocStats.FreeNodeLocs, AllocStats.CurFreeRootNodeLocs, AllocStats.FreeRootNodeLocs, ghost net, ghost tvs, t.store.nodeAllocs, new ploc.Offset, new ploc.Length, new node.numNodes, new node.numBytes, new node.next, new itemLoc.loc, new itemLoc.item, new nodeLoc.loc, new nodeLoc.node, new nodeLoc.next, new Item.Key, new Item.Val, new Item.Priority, new Item.Transient, new mem.byte, ghost io.fails, ghost io.reads, ghost io.valbytes, ghost src, cell.Int, ghost orphans, ghost vis.n, ghost vis.key, ghost vis.item, ghost vis.depth, ghost vis.hasval, ghost vis.stop
 //@   ensures [C07] E1: io.fails >= old(io.fails) && (io.fails > old(io.fails) ==> err != nil)
 //@   ensures [C16] block-shape: err == nil ==> num <= 1024 && leng >= 1
+//@   ensures [C16,C07] blocks-only-for-a-non-empty-collection: err == nil && num >= 1 ==> !isLeaf(old(tvs)[old(t.root.root)])
+//@   ensures [C15] releases-the-reference-Len-took: orphans == old(orphans)
+//@   ensures [C19] key-only-reads-no-value: io.valbytes == old(io.valbytes)
 //@   ensures [C04,C09,C18] changes-no-version: t.root == old(t.root) && rootNodeLoc.refs == old(rootNodeLoc.refs) && rootNodeLoc.root == old(rootNodeLoc.root) && rootNodeLoc.next == old(rootNodeLoc.next) && rootNodeLoc.chainedCollection == old(rootNodeLoc.chainedCollection) && rootNodeLoc.chainedRootNodeLoc == old(rootNodeLoc.chainedRootNodeLoc) && tvs == old(tvs) && ias == old(ias) && (forall m {node.next[m]} :: !fresh(m) ==> node.next[m] == old(node.next[m])) && (forall x {nodeLoc.loc[x]} {nodeLoc.next[x]} :: !fresh(x) ==> nodeLoc.loc[x] == old(nodeLoc.loc[x]) && nodeLoc.next[x] == old(nodeLoc.next[x])) && freeNodes == old(freeNodes) && freeNodeLocs == old(freeNodeLocs) && freeRootNodeLocs == old(freeRootNodeLocs)
 
 // ---------------------------------------------------------------------------
@@ -1637,3 +1640,123 @@ package gkvlite
 //@   from: C05 lock discipline: the statistics are read under all three allocator locks, which are released again
 //@   requires t != nil && locks == emptyLocks()
 //@   modifies cell.Int, cell.Bool
+
+// ---------------------------------------------------------------------------
+// collection.go: the block visits (C16). Thin contracts: no reachable panic, file errors propagate, the
+// reference MinItem takes is released, nothing but the log changes, and what the caller's visitor is handed
+// are items of the collection. "Every item exactly once" stays with the bounded harness (see DESIGN).
+
+//@ functype BlockMangler(in) (out)
+//@   from: A9-style neutrality: a block reordering callback returns some slice of keys and touches nothing of the store
+
+//@ func (*Collection).VisitItemsAscendBlockEx$1
+//@   props C16 C06
+//@   from: the block-start collector of the first pass; handed to VisitItemsAscendEx as its visitor, so it must satisfy the ItemVisitorEx contract (the ghost prologue writes the log entry); it never stops the visit
+//@   requires i != nil && j != nil && blockStore != nil && lenBlock != nil && locks == emptyLocks()
+//@   modifies cell.Int, cell.Slice, mem.Slice, ghost vis.n, ghost vis.key, ghost vis.item, ghost vis.depth, ghost vis.hasval, ghost vis.stop
+//@   after entry sets vis.key := upd(vis.key, vis.n, ikey(ia(i)))
+//@   after entry sets vis.item := upd(vis.item, vis.n, ia(i))
+//@   after entry sets vis.depth := upd(vis.depth, vis.n, depth)
+//@   after entry sets vis.hasval := upd(vis.hasval, vis.n, i.Val != nil)
+//@   after entry sets vis.n := vis.n + 1
+//@   ensures logs: vis.n == old(vis.n) + 1 && vis.key == upd(old(vis.key), old(vis.n), ikey(ia(i))) && vis.item == upd(old(vis.item), old(vis.n), ia(i)) && vis.hasval == upd(old(vis.hasval), old(vis.n), i.Val != nil) && vis.depth == upd(old(vis.depth), old(vis.n), depth)
+//@   ensures kept-going: result && vis.stop == old(vis.stop)
+
+//@ func (*Collection).VisitItemsAscendBlockEx$2
+//@   props C16 C06 C07
+//@   from: the per-block visitor of the second pass; handed to VisitItemsAscendEx as its visitor, so it must satisfy the ItemVisitorEx contract: it passes the item on to the caller's visitor and stops the visit after lenBlock+1 items; the "impossible" panic is unreachable because the counter never exceeds lenBlock
+//@   requires i != nil && j != nil && lenBlock != nil && visitor != nil && deref(visitor) != nil && locks == emptyLocks() && j != visitor && j != lenBlock
+//@   captures [C07] counter-within-block: deref(j) <= deref(lenBlock)
+//@   modifies cell.Int, ghost vis.n, ghost vis.key, ghost vis.item, ghost vis.depth, ghost vis.hasval, ghost vis.stop
+//@   after ItemVisitorEx.0 sets vis.stop := true
+//@   ensures logs-or-refuses: (vis.n == old(vis.n) + 1 && vis.key == upd(old(vis.key), old(vis.n), ikey(ia(i))) && vis.item == upd(old(vis.item), old(vis.n), ia(i)) && vis.hasval == upd(old(vis.hasval), old(vis.n), i.Val != nil) && vis.depth == upd(old(vis.depth), old(vis.n), depth)) || (!result && vis.n == old(vis.n) && vis.key == old(vis.key) && vis.item == old(vis.item) && vis.depth == old(vis.depth) && vis.hasval == old(vis.hasval))
+//@   ensures kept-going: result ==> vis.n == old(vis.n) + 1 && vis.stop == old(vis.stop)
+//@   ensures stopped: !result ==> vis.stop
+//@   ensures [C07] block-length-untouched: deref(lenBlock) == old(deref(lenBlock))
+
+//@ func (*Collection).VisitItemsAscendBlockEx
+//@   props C16 C19 C07 C15 C05 C04 C09 C18 C06
+//@   from: C16 statement (the items the visitor is presented are items of the collection), C07 (file errors propagate, no reachable panic), C15 (the reference MinItem takes is released), C09/C04 (a visit changes no version), C19 (key-only unless values are asked for). "Exactly once" is decided by the bounded harness.
+//@   requires [C05,C18] nolocks: locks == emptyLocks()
+//@   requires t != nil && t.store != nil && t.rootLock != nil && t.compare != nil && visitor != nil
+//@   requires [C07] open-handle: t.root != nil
+//@   modifies rootNodeLoc.refs, rootNodeLoc.root, rootNodeLoc.next, rootNodeLoc.chainedCollection, rootNodeLoc.chainedRootNodeLoc, node.numNodes, node.numBytes, node.next, itemLoc.loc, itemLoc.item, nodeLoc.loc, nodeLoc.node, nodeLoc.next, mem.ptr, G.freeNodes, G.freeNodeLocs, G.freeRootNodeLocs, AllocStats.CurFreeNodes, AllocStats.FreeNodes, AllocStats.CurFreeNodeLocs, AllocStats.FreeNodeLocs, AllocStats.CurFreeRootNodeLocs, AllocStats.FreeRootNodeLocs, ghost net, ghost tvs, t.store.nodeAllocs, new ploc.Offset, new ploc.Length, new node.numNodes, new node.numBytes, new node.next, new itemLoc.loc, new itemLoc.item, new nodeLoc.loc, new nodeLoc.node, new nodeLoc.next, new Item.Key, new Item.Val, new Item.Priority, new Item.Transient, new mem.byte, ghost io.fails, ghost io.reads, ghost io.valbytes, ghost src, cell.Int, ghost orphans, ghost vis.n, ghost vis.key, ghost vis.item, ghost vis.depth, ghost vis.hasval, ghost vis.stop, cell.Slice, mem.Slice
+//@   after (*Collection).determineBlocks.0 sets vis.n := old(vis.n)
+//@   after (*Collection).VisitItemsAscendEx.0 sets vis.n := old(vis.n)
+//@   after (*Collection).VisitItemsAscendEx.0 assumes refcb(t.store) ==> net[si] >= 1
+//@   after (*Store).ItemDecRef.0 sets orphans := orphans - 1
+//@   ensures [C07] E1: io.fails >= old(io.fails) && (io.fails > old(io.fails) ==> result != nil)
+//@   ensures [C16,C06] presents-only-items-of-the-collection: forall idx {vis.key[idx]} {vis.item[idx]} {vis.hasval[idx]} :: old(vis.n) <= idx && idx < vis.n ==> mem(vis.key[idx], old(tvs)[old(t.root.root)]) && vis.item[idx] == itemAt(vis.key[idx], old(tvs)[old(t.root.root)]) && (withValue ==> vis.hasval[idx])
+//@   ensures [C19] key-only-reads-no-value: !withValue ==> io.valbytes == old(io.valbytes)
+//@   ensures [C04,C09,C18] changes-no-version: t.root == old(t.root) && rootNodeLoc.refs == old(rootNodeLoc.refs) && rootNodeLoc.root == old(rootNodeLoc.root) && rootNodeLoc.next == old(rootNodeLoc.next) && rootNodeLoc.chainedCollection == old(rootNodeLoc.chainedCollection) && rootNodeLoc.chainedRootNodeLoc == old(rootNodeLoc.chainedRootNodeLoc) && tvs == old(tvs) && ias == old(ias) && (forall m {node.next[m]} :: !fresh(m) ==> node.next[m] == old(node.next[m])) && (forall x {nodeLoc.loc[x]} {nodeLoc.next[x]} :: !fresh(x) ==> nodeLoc.loc[x] == old(nodeLoc.loc[x]) && nodeLoc.next[x] == old(nodeLoc.next[x])) && freeNodes == old(freeNodes) && freeNodeLocs == old(freeNodeLocs) && freeRootNodeLocs == old(freeRootNodeLocs)
+//@   ensures [C15] releases-the-reference-it-took: orphans == old(orphans)
+//@   loop 0 modifies rootNodeLoc.refs, rootNodeLoc.root, rootNodeLoc.next, rootNodeLoc.chainedCollection, rootNodeLoc.chainedRootNodeLoc, node.numNodes, node.numBytes, node.next, itemLoc.loc, itemLoc.item, nodeLoc.loc, nodeLoc.node, nodeLoc.next, mem.ptr, G.freeNodes, G.freeNodeLocs, G.freeRootNodeLocs, AllocStats.CurFreeNodes, AllocStats.FreeNodes, AllocStats.CurFreeNodeLocs, AllocStats.FreeNodeLocs, AllocStats.CurFreeRootNodeLocs, AllocStats.FreeRootNodeLocs, ghost net, ghost tvs, t.store.nodeAllocs, new ploc.Offset, new ploc.Length, new node.numNodes, new node.numBytes, new node.next, new itemLoc.loc, new itemLoc.item, new nodeLoc.loc, new nodeLoc.node, new nodeLoc.next, new Item.Key, new Item.Val, new Item.Priority, new Item.Transient, new mem.byte, ghost io.fails, ghost io.reads, ghost io.valbytes, ghost src, cell.Int, ghost orphans, ghost vis.n, ghost vis.key, ghost vis.item, ghost vis.depth, ghost vis.hasval, ghost vis.stop, cell.Slice, mem.Slice
+//@   loop 0 invariant [C07] no-failure-so-far: io.fails == old(io.fails) && orphans == old(orphans) && vis.n >= old(vis.n)
+//@   loop 0 invariant [C07] block-length-is-positive: lenBlock >= 1 && -1 <= rangeindex
+//@   loop 0 invariant [C19] no-value-unless-asked: !withValue ==> io.valbytes == old(io.valbytes)
+//@   loop 0 invariant [C04,C09,C18] no-version-changed: t.root == old(t.root) && rootNodeLoc.refs == old(rootNodeLoc.refs) && rootNodeLoc.root == old(rootNodeLoc.root) && rootNodeLoc.next == old(rootNodeLoc.next) && rootNodeLoc.chainedCollection == old(rootNodeLoc.chainedCollection) && rootNodeLoc.chainedRootNodeLoc == old(rootNodeLoc.chainedRootNodeLoc) && tvs == old(tvs) && ias == old(ias) && (forall m {node.next[m]} :: !fresh(m) ==> node.next[m] == old(node.next[m])) && (forall x {nodeLoc.loc[x]} {nodeLoc.next[x]} :: !fresh(x) ==> nodeLoc.loc[x] == old(nodeLoc.loc[x]) && nodeLoc.next[x] == old(nodeLoc.next[x])) && freeNodes == old(freeNodes) && freeNodeLocs == old(freeNodeLocs) && freeRootNodeLocs == old(freeRootNodeLocs)
+//@   loop 0 invariant [C16,C06] presented-so-far: forall idx {vis.key[idx]} {vis.item[idx]} {vis.hasval[idx]} :: old(vis.n) <= idx && idx < vis.n ==> mem(vis.key[idx], old(tvs)[old(t.root.root)]) && vis.item[idx] == itemAt(vis.key[idx], old(tvs)[old(t.root.root)]) && (withValue ==> vis.hasval[idx])
+
+//@ extern math/rand.Intn(n) (r)
+//@   from: package documentation: "Intn returns, as an int, a non-negative pseudo-random number in the half-open interval [0,n). It panics if n <= 0."
+//@   requires n > 0
+//@   ensures 0 <= r && r < n
+
+//@ func RandBm
+//@   props C16 C07
+//@   from: code (a Fisher-Yates shuffle in place): no index is ever out of range and the slice handed back is the slice handed in (same length); that the result is a permutation is part of what the bounded harness checks
+//@   modifies content(slice)
+//@   ensures [C16] same-slice: result == slice
+//@   loop 0 modifies content(slice)
+//@   loop 0 invariant -1 <= rangeindex
+
+//@ func (*Collection).VisitItemsRandom$1
+//@   props C16 C06
+//@   from: the block-start collector of the first pass; handed to VisitItemsAscendEx as its visitor, so it must satisfy the ItemVisitorEx contract (the ghost prologue writes the log entry); it never stops the visit
+//@   requires i != nil && j != nil && blockStore != nil && lenBlock != nil && locks == emptyLocks()
+//@   modifies cell.Int, cell.Slice, mem.Slice, ghost vis.n, ghost vis.key, ghost vis.item, ghost vis.depth, ghost vis.hasval, ghost vis.stop
+//@   after entry sets vis.key := upd(vis.key, vis.n, ikey(ia(i)))
+//@   after entry sets vis.item := upd(vis.item, vis.n, ia(i))
+//@   after entry sets vis.depth := upd(vis.depth, vis.n, depth)
+//@   after entry sets vis.hasval := upd(vis.hasval, vis.n, i.Val != nil)
+//@   after entry sets vis.n := vis.n + 1
+//@   ensures logs: vis.n == old(vis.n) + 1 && vis.key == upd(old(vis.key), old(vis.n), ikey(ia(i))) && vis.item == upd(old(vis.item), old(vis.n), ia(i)) && vis.hasval == upd(old(vis.hasval), old(vis.n), i.Val != nil) && vis.depth == upd(old(vis.depth), old(vis.n), depth)
+//@   ensures kept-going: result && vis.stop == old(vis.stop)
+
+//@ func (*Collection).VisitItemsRandom$2
+//@   props C16 C06 C07
+//@   from: the per-block visitor: the first item it is handed goes to the caller's visitor, the second becomes the block's new start and stops the visit; handed to VisitItemsAscendEx as its visitor, so it must satisfy the ItemVisitorEx contract
+//@   requires itm != nil && first != nil && advanced != nil && blockStore != nil && i != nil && visitor != nil && deref(visitor) != nil && locks == emptyLocks() && first != advanced
+//@   captures [C07] block-index-in-range: 0 <= deref(i) && deref(i) < len(deref(blockStore))
+//@   modifies cell.Bool, content(deref(blockStore)), ghost vis.n, ghost vis.key, ghost vis.item, ghost vis.depth, ghost vis.hasval, ghost vis.stop
+//@   after entry sets vis.stop := vis.stop || !deref(first)
+//@   ensures logs-or-refuses: (vis.n == old(vis.n) + 1 && vis.key == upd(old(vis.key), old(vis.n), ikey(ia(itm))) && vis.item == upd(old(vis.item), old(vis.n), ia(itm)) && vis.hasval == upd(old(vis.hasval), old(vis.n), itm.Val != nil) && vis.depth == upd(old(vis.depth), old(vis.n), depth)) || (!result && vis.n == old(vis.n) && vis.key == old(vis.key) && vis.item == old(vis.item) && vis.depth == old(vis.depth) && vis.hasval == old(vis.hasval))
+//@   ensures kept-going: result ==> vis.n == old(vis.n) + 1 && vis.stop == old(vis.stop)
+//@   ensures stopped: !result ==> vis.stop
+//@   ensures [C07] block-table-untouched: deref(blockStore) == old(deref(blockStore)) && deref(i) == old(deref(i))
+
+//@ func (*Collection).VisitItemsRandom
+//@   props C16 C07 C15 C05 C04 C09 C18 C06
+//@   from: C16 statement (the items the visitor is presented are items of the collection, with their values), C07 (file errors propagate, no index out of range), C15 (the reference MinItem takes is released), C09/C04 (a visit changes no version). "Exactly once" is decided by the bounded harness.
+//@   requires [C05,C18] nolocks: locks == emptyLocks()
+//@   requires t != nil && t.store != nil && t.rootLock != nil && t.compare != nil && visitor != nil
+//@   requires [C07] open-handle: t.root != nil
+//@   modifies rootNodeLoc.refs, rootNodeLoc.root, rootNodeLoc.next, rootNodeLoc.chainedCollection, rootNodeLoc.chainedRootNodeLoc, node.numNodes, node.numBytes, node.next, itemLoc.loc, itemLoc.item, nodeLoc.loc, nodeLoc.node, nodeLoc.next, mem.ptr, G.freeNodes, G.freeNodeLocs, G.freeRootNodeLocs, AllocStats.CurFreeNodes, AllocStats.FreeNodes, AllocStats.CurFreeNodeLocs, AllocStats.FreeNodeLocs, AllocStats.CurFreeRootNodeLocs, AllocStats.FreeRootNodeLocs, ghost net, ghost tvs, t.store.nodeAllocs, new ploc.Offset, new ploc.Length, new node.numNodes, new node.numBytes, new node.next, new itemLoc.loc, new itemLoc.item, new nodeLoc.loc, new nodeLoc.node, new nodeLoc.next, new Item.Key, new Item.Val, new Item.Priority, new Item.Transient, new mem.byte, ghost io.fails, ghost io.reads, ghost io.valbytes, ghost src, cell.Int, ghost orphans, ghost vis.n, ghost vis.key, ghost vis.item, ghost vis.depth, ghost vis.hasval, ghost vis.stop, cell.Slice, cell.Bool, mem.Slice
+//@   after (*Collection).determineBlocks.0 sets vis.n := old(vis.n)
+//@   after (*Collection).VisitItemsAscendEx.0 sets vis.n := old(vis.n)
+//@   after (*Collection).VisitItemsAscendEx.0 assumes refcb(t.store) ==> net[si] >= 1
+//@   after (*Store).ItemDecRef.0 sets orphans := orphans - 1
+//@   ensures [C07] E1: io.fails >= old(io.fails) && (io.fails > old(io.fails) ==> result != nil)
+//@   ensures [C16,C06] presents-only-items-of-the-collection: forall idx {vis.key[idx]} {vis.item[idx]} {vis.hasval[idx]} :: old(vis.n) <= idx && idx < vis.n ==> mem(vis.key[idx], old(tvs)[old(t.root.root)]) && vis.item[idx] == itemAt(vis.key[idx], old(tvs)[old(t.root.root)]) && vis.hasval[idx]
+//@   ensures [C04,C09,C18] changes-no-version: t.root == old(t.root) && rootNodeLoc.refs == old(rootNodeLoc.refs) && rootNodeLoc.root == old(rootNodeLoc.root) && rootNodeLoc.next == old(rootNodeLoc.next) && rootNodeLoc.chainedCollection == old(rootNodeLoc.chainedCollection) && rootNodeLoc.chainedRootNodeLoc == old(rootNodeLoc.chainedRootNodeLoc) && tvs == old(tvs) && ias == old(ias) && (forall m {node.next[m]} :: !fresh(m) ==> node.next[m] == old(node.next[m])) && (forall x {nodeLoc.loc[x]} {nodeLoc.next[x]} :: !fresh(x) ==> nodeLoc.loc[x] == old(nodeLoc.loc[x]) && nodeLoc.next[x] == old(nodeLoc.next[x])) && freeNodes == old(freeNodes) && freeNodeLocs == old(freeNodeLocs) && freeRootNodeLocs == old(freeRootNodeLocs)
+//@   ensures [C15] releases-the-reference-it-took: orphans == old(orphans)
+//@   loop 0 modifies rootNodeLoc.refs, rootNodeLoc.root, rootNodeLoc.next, rootNodeLoc.chainedCollection, rootNodeLoc.chainedRootNodeLoc, node.numNodes, node.numBytes, node.next, itemLoc.loc, itemLoc.item, nodeLoc.loc, nodeLoc.node, nodeLoc.next, mem.ptr, G.freeNodes, G.freeNodeLocs, G.freeRootNodeLocs, AllocStats.CurFreeNodes, AllocStats.FreeNodes, AllocStats.CurFreeNodeLocs, AllocStats.FreeNodeLocs, AllocStats.CurFreeRootNodeLocs, AllocStats.FreeRootNodeLocs, ghost net, ghost tvs, t.store.nodeAllocs, new ploc.Offset, new ploc.Length, new node.numNodes, new node.numBytes, new node.next, new itemLoc.loc, new itemLoc.item, new nodeLoc.loc, new nodeLoc.node, new nodeLoc.next, new Item.Key, new Item.Val, new Item.Priority, new Item.Transient, new mem.byte, ghost io.fails, ghost io.reads, ghost io.valbytes, ghost src, cell.Int, ghost orphans, ghost vis.n, ghost vis.key, ghost vis.item, ghost vis.depth, ghost vis.hasval, ghost vis.stop, cell.Bool, mem.Slice
+//@   loop 0 decreases j
+//@   loop 0 invariant [C07] no-failure-so-far: io.fails == old(io.fails) && orphans == old(orphans) && vis.n >= old(vis.n)
+//@   loop 0 invariant [C04,C09,C18] no-version-changed: t.root == old(t.root) && rootNodeLoc.refs == old(rootNodeLoc.refs) && rootNodeLoc.root == old(rootNodeLoc.root) && rootNodeLoc.next == old(rootNodeLoc.next) && rootNodeLoc.chainedCollection == old(rootNodeLoc.chainedCollection) && rootNodeLoc.chainedRootNodeLoc == old(rootNodeLoc.chainedRootNodeLoc) && tvs == old(tvs) && ias == old(ias) && (forall m {node.next[m]} :: !fresh(m) ==> node.next[m] == old(node.next[m])) && (forall x {nodeLoc.loc[x]} {nodeLoc.next[x]} :: !fresh(x) ==> nodeLoc.loc[x] == old(nodeLoc.loc[x]) && nodeLoc.next[x] == old(nodeLoc.next[x])) && freeNodes == old(freeNodes) && freeNodeLocs == old(freeNodeLocs) && freeRootNodeLocs == old(freeRootNodeLocs)
+//@   loop 0 invariant [C16,C06] presented-so-far: forall idx {vis.key[idx]} {vis.item[idx]} {vis.hasval[idx]} :: old(vis.n) <= idx && idx < vis.n ==> mem(vis.key[idx], old(tvs)[old(t.root.root)]) && vis.item[idx] == itemAt(vis.key[idx], old(tvs)[old(t.root.root)]) && vis.hasval[idx]
+//@   loop 1 modifies rootNodeLoc.refs, rootNodeLoc.root, rootNodeLoc.next, rootNodeLoc.chainedCollection, rootNodeLoc.chainedRootNodeLoc, node.numNodes, node.numBytes, node.next, itemLoc.loc, itemLoc.item, nodeLoc.loc, nodeLoc.node, nodeLoc.next, mem.ptr, G.freeNodes, G.freeNodeLocs, G.freeRootNodeLocs, AllocStats.CurFreeNodes, AllocStats.FreeNodes, AllocStats.CurFreeNodeLocs, AllocStats.FreeNodeLocs, AllocStats.CurFreeRootNodeLocs, AllocStats.FreeRootNodeLocs, ghost net, ghost tvs, t.store.nodeAllocs, new ploc.Offset, new ploc.Length, new node.numNodes, new node.numBytes, new node.next, new itemLoc.loc, new itemLoc.item, new nodeLoc.loc, new nodeLoc.node, new nodeLoc.next, new Item.Key, new Item.Val, new Item.Priority, new Item.Transient, new mem.byte, ghost io.fails, ghost io.reads, ghost io.valbytes, ghost src, cell.Int, ghost orphans, ghost vis.n, ghost vis.key, ghost vis.item, ghost vis.depth, ghost vis.hasval, ghost vis.stop, cell.Bool, mem.Slice
+//@   loop 1 invariant [C07] no-failure-so-far: io.fails == old(io.fails) && orphans == old(orphans) && vis.n >= old(vis.n)
+//@   loop 1 invariant [C04,C09,C18] no-version-changed: t.root == old(t.root) && rootNodeLoc.refs == old(rootNodeLoc.refs) && rootNodeLoc.root == old(rootNodeLoc.root) && rootNodeLoc.next == old(rootNodeLoc.next) && rootNodeLoc.chainedCollection == old(rootNodeLoc.chainedCollection) && rootNodeLoc.chainedRootNodeLoc == old(rootNodeLoc.chainedRootNodeLoc) && tvs == old(tvs) && ias == old(ias) && (forall m {node.next[m]} :: !fresh(m) ==> node.next[m] == old(node.next[m])) && (forall x {nodeLoc.loc[x]} {nodeLoc.next[x]} :: !fresh(x) ==> nodeLoc.loc[x] == old(nodeLoc.loc[x]) && nodeLoc.next[x] == old(nodeLoc.next[x])) && freeNodes == old(freeNodes) && freeNodeLocs == old(freeNodeLocs) && freeRootNodeLocs == old(freeRootNodeLocs)
+//@   loop 1 invariant [C16,C06] presented-so-far: forall idx {vis.key[idx]} {vis.item[idx]} {vis.hasval[idx]} :: old(vis.n) <= idx && idx < vis.n ==> mem(vis.key[idx], old(tvs)[old(t.root.root)]) && vis.item[idx] == itemAt(vis.key[idx], old(tvs)[old(t.root.root)]) && vis.hasval[idx]
+//@   loop 1 invariant -1 <= rangeindex
